@@ -18,7 +18,8 @@ def reset_script(values=None, per=1):
 
 
 class HarnessModel:
-    def __init__(self, kind: str, D: int, extreme: float = 0.0, mutates: bool = False):  # noqa: N803
+    def __init__(self, kind: str, D: int, extreme: float = 0.0, mutates: bool = False, scale: float = 1.0):  # noqa: N803
+        self.scale = scale              # e.g. 1e-9: series far below any absolute comparison tolerance
         self.kind = kind
         self.D = D
         self.extreme = extreme
@@ -49,6 +50,8 @@ class HarnessModel:
             x = np.full((N, D), float(v))
         else:
             raise ValueError(self.kind)
+        if getattr(self, "scale", 1.0) != 1.0:
+            x = x * self.scale
         if getattr(self, "mutates", False) and isinstance(theta, np.ndarray) and theta.flags.writeable:
             theta += 1.0
         if self.extreme > 0.0:
